@@ -94,9 +94,12 @@ Fails(name, holds) == IF holds THEN {} ELSE {name}
 \* an observed row sequence is the same multiset as the expected row set
 BagIsSet(s, S) == Len(s) = Cardinality(S) /\ SeqSet(s) = S
 
-(* ORDER, where it is promised: both operands sorted by their index, joined on the index.  pandas:
-   inner/left keep the order of the left keys, right keeps the order of the right keys, outer sorts
-   the keys; within one key the left rows vary slowest for inner/left/outer, the right rows for right. *)
+(* ORDER, where it is promised: both operands have a sorted UNIQUE index and are joined on it.  pandas:
+   inner/left keep the order of the left keys, right keeps the order of the right keys, outer sorts the
+   keys - for such operands that is: the joined index is in key order.  (With duplicate labels pandas'
+   own index join is not in key order, so nothing is promised there beyond truthful divisions.)
+   MergeSeq is written for arbitrary operands (within one key the left rows vary slowest for inner /
+   left / outer, the right rows for right); what is compared is the key sequence, KeySeqOf.            *)
 LeftMajor(L, R, mode, keep) ==
   ConcatParts([i \in DOMAIN L |->
      LET js == Asc(RightOf(L, R, mode, i))
@@ -121,10 +124,14 @@ SeqPairs(L, R, how, mode) ==
 MergeSeq(L, R, how, mode) ==
   LET ps == SeqPairs(L, R, how, mode) IN [q \in DOMAIN ps |-> OutRow(L, R, how, mode, ps[q])]
 
+\* the coalesced keys of a sequence of output rows
+KeySeqOf(ts) == [q \in DOMAIN ts |-> ts[q][6]]
+
 SortedNoNA(f) == SortedByIdx(f) /\ \A i \in DOMAIN f : f[i].idx # NA
-\* the order clause applies to index-index joins whose operands are index-sorted and declare known divisions
+UniqueSortedIdx(f) == StrictlyIncreasing(Idxs(f)) /\ \A i \in DOMAIN f : f[i].idx # NA
+\* the order clause applies to index-index joins whose operands have a sorted unique index and declare known divisions
 OrderPromised(L, R, how, mode, lknown, rknown) ==
-  mode = "ii" /\ how # "leftsemi" /\ lknown /\ rknown /\ SortedNoNA(L) /\ SortedNoNA(R)
+  mode = "ii" /\ how # "leftsemi" /\ lknown /\ rknown /\ UniqueSortedIdx(L) /\ UniqueSortedIdx(R)
 
 (* What a recorded merge call violates.  obs = harness.frameobs-style observation whose rows are
    [t |-> <<l, r, m, kl, kr, kc, vx, vy>>, idx |-> label]; a cell the harness cannot find is Absent.     *)
@@ -141,7 +148,7 @@ MergeBad(r) ==
   IN IF r.how \notin HowsOf(r.mode) \/ r.naming \notin NamingsOf(r.mode) THEN {"BadCase"}
      ELSE IF obs.raised # "" THEN {"Raised"}
      ELSE Fails("Rows", BagIsSet(got, want))
-          \cup Fails("Order", OrderPromised(r.L, r.R, r.how, r.mode, r.lknown, r.rknown) /\ BagIsSet(got, want) => got = wseq)
+          \cup Fails("Order", OrderPromised(r.L, r.R, r.how, r.mode, r.lknown, r.rknown) /\ BagIsSet(got, want) => KeySeqOf(got) = KeySeqOf(wseq))
           \cup Fails("Meta", obs.nparts = Len(obs.parts) /\ obs.ndivs = obs.nparts + 1)
           \cup Fails("Truthful", ObsTruthful(obs))
           \cup Fails("WholeOK", obs.wholeok)
